@@ -435,6 +435,21 @@ def gen_contention(rng):
             spec['actions'].append([t, pr, 'block', rng.choice(ps), rng.random() < 0.5])
     if rng.random() < 0.35:
         spec['actions'] += fail_during_maint(rng, ps)
+    if rng.random() < 0.3:
+        # a processor goes down (possibly while it waits for resources), resources arrive while it is down, it comes
+        # back, and contention continues afterwards
+        for _ in range(rng.choice([1, 2])):
+            t = rng.choice([0.5, 1, 2, 3, 4.5, 6])
+            x = rng.choice(ps)
+            spec['actions'].append([t, rng.choice(PRIOS), rng.choice(['shutdown', 'shutdown', 'fail']), x])
+            if spec['actions'][-1][2] == 'fail':
+                spec['actions'][-1].append(0)
+            spec['actions'].append([t + rng.choice([0.25, 0.5, 1]), rng.choice(PRIOS), 'addres', rng.choice(list(spec['res'])),
+                                    rng.choice([1, 1, 2])])
+            spec['actions'].append([t + rng.choice([1, 1.5, 2.5]), rng.choice(PRIOS), 'restore', x])
+            if rng.random() < 0.5:
+                spec['actions'].append([t + rng.choice([3, 4, 6]), rng.choice(PRIOS), 'addres', rng.choice(list(spec['res'])),
+                                        rng.choice([-1, -2])])
     if rng.random() < 0.25:
         # deliveries: the sources hold few parts and are topped up by low-priority events, several of them at the same
         # instant, so that a (zero-cycle) processor gets parts again after its deferred release event of that instant
